@@ -128,7 +128,7 @@ func (rn *runner) prettyTie(w *World, inputs [][]byte, outs [][]byte) {
 	}
 	answers, err := rn.drv.AskAll(lines)
 	if err != nil {
-		res.Note("pretty tie: %v", err)
+		res.Fatalf("pretty tie: %v", err)
 		res.Mismatch(lib.Mismatch{Sig: "harness-run-aborted", Model: err.Error()})
 		return
 	}
